@@ -772,6 +772,29 @@ where
     r
 }
 
+/// like vproof!, but the square roots only by their class contract (sign / zero / NaN / monotone side of 1):
+/// for harnesses about constructors' domains and stored structure, where root accuracy is irrelevant
+macro_rules! vproof_lite {
+    ($(#[$m:meta])* fn $name:ident() $body:block) => {
+        #[kani::proof]
+        #[kani::stub(libm::log, c_ln64)]
+        #[kani::stub(libm::logf, c_ln32)]
+        #[kani::stub(libm::exp, c_exp64)]
+        #[kani::stub(libm::expf, c_exp32)]
+        #[kani::stub(libm::pow, c_pow64)]
+        #[kani::stub(libm::powf, c_pow32)]
+        #[kani::stub(libm::sqrt, c_sqrt64_class)]
+        #[kani::stub(libm::sqrtf, c_sqrt32_class)]
+        #[kani::stub(libm::fabs, c_fabs64)]
+        #[kani::stub(libm::fabsf, c_fabs32)]
+        #[kani::stub(libm::floor, c_floor64)]
+        #[kani::stub(libm::floorf, c_floor32)]
+        $(#[$m])*
+        fn $name() $body
+    };
+}
+pub(crate) use vproof_lite;
+
 /// like vproof!, with utils::ziggurat replaced by its contract as well
 macro_rules! vproof_zstub {
     ($(#[$m:meta])* fn $name:ident() $body:block) => {
@@ -856,6 +879,18 @@ fn flog(a: f64, b: f64) -> f64 {
     }
     r
 }
+/// log a call whose result the caller chose
+pub fn flog_with(a: f64, b: f64, r: f64) -> f64 {
+    unsafe {
+        if F_N < 6 {
+            F_ARG[F_N] = a;
+            F_ARG2[F_N] = b;
+            F_RES[F_N] = r;
+        }
+        F_N += 1;
+    }
+    r
+}
 pub fn f_un64(x: f64) -> f64 {
     flog(x, 0.0)
 }
@@ -864,6 +899,9 @@ pub fn f_un32(x: f32) -> f32 {
 }
 pub fn f_bin64(x: f64, y: f64) -> f64 {
     flog(x, y)
+}
+pub fn f_powi64(x: f64, n: i32) -> f64 {
+    flog(x, n as f64)
 }
 pub fn f_bin32(x: f32, y: f32) -> f32 {
     flog(x as f64, y as f64) as f32
@@ -883,6 +921,13 @@ where
 {
     let _ = rng.next_u64();
     flog(if symmetric { 1.0 } else { 0.0 }, 0.0)
+}
+/// true in the native replay build (`cargo kani playback` compiles the harness as a #[test], stubs are NOT
+/// applied there): harnesses then take the standard quantity from the real libm / real ziggurat instead of
+/// the log, so that the replay evaluates the same algebraic assertion on the real build.
+#[inline(always)]
+pub fn native() -> bool {
+    cfg!(test)
 }
 pub fn flog_get(i: usize) -> (f64, f64, f64) {
     unsafe { (F_ARG[i], F_ARG2[i], F_RES[i]) }
@@ -904,6 +949,13 @@ macro_rules! vproof_free {
         #[kani::stub(libm::powf, f_bin32)]
         #[kani::stub(f64::ln, f_un64)]
         #[kani::stub(f64::exp, f_un64)]
+        #[kani::stub(f64::powf, f_bin64)]
+        #[kani::stub(f64::powi, f_powi64)]
+        #[kani::stub(libm::log1p, f_un64)]
+        #[kani::stub(libm::log1pf, f_un32)]
+        #[kani::stub(libm::sqrt, c_sqrt64_class)]
+        #[kani::stub(libm::sqrtf, c_sqrt32_class)]
+        #[kani::stub(f64::sqrt, c_sqrt64_class)]
         #[kani::stub(crate::utils::ziggurat, f_ziggurat)]
         $(#[$m])*
         fn $name() $body
